@@ -183,3 +183,14 @@ PROPS["C12"] = {
     "level_text": "Seeded exploration over constructors x arbitrary JSON values x update sequences, checked as a state invariant at every quiescent point.",
     "level_note": "Sampling.",
 }
+
+PROPS["C20"] = {
+    "test": "TestC20", "level": "exploration", "budget": {"quick": 25, "thorough": 900},
+    "env": {"thorough": {"VERIF_C20_ALL_CODES": "1"}},
+    "rule": "histories of 1..9 operations on one storage directory from {restart with the same structure and other values, restart with a structurally different accessory set (6 variants: single switch, bridge, extra characteristic, other permission list and extra service), pair-setup on the wire, add pairing and remove pairing through /pairings by a verified controller, value changes through the application API, probe by a paired controller}; after every start and after every pair / unpair event: the id TXT record and the long-term public key equal the first run's, every model pairing is stored and nothing else, c# equals the previous c# plus one exactly when an independent value-stripping canonicaliser of the encoded attribute database gives another hash than for the previous run, sf in the stub responder's latest TXT record is 1 exactly when the model holds no controller pairing, and the setup URI decodes back to code, category, IP flag and setup id. Pure sub-claims by plain enumeration in the same command (not simulation): ValidatePin over a stride sample of the code space in quick and all 10^8 codes in thorough plus 15 malformed strings; XHMURI decode over 256 categories x 16 flag sets x 7 codes. non-trivial = at least one restart or stored pairing",
+    "real": REAL_SYSTEM, "stub": STUB_SYSTEM + ["restart = close every connection, stop the transport, drop every object, build a new transport on the same directory"],
+    "assumptions": ["the structure is compared on hc's own JSON encoding of the container (an independent canonicaliser strips values and compares)", "restart is a clean stop; crash points of the configuration write are C19's"],
+    "level_text": "Seeded exploration of restart / pair / unpair histories against a model of identity, pairings, configuration number and discoverability, observed through the stub mDNS responder and the pairing store; the code space and the setup URI are enumerated.",
+    "level_note": "Sampling of histories; enumeration of the pure sub-claims (complete over codes in the thorough tier).",
+    "technique": "deterministic simulation of restart histories with a reference model; plain enumeration for the pure sub-claims",
+}
